@@ -599,7 +599,7 @@ impl SetupModel {
         let side = if self.gold { 0 } else { 1 };
         let sq = self.next_square();
         self.board.0[sq] = cell(st, self.gold);
-        self.left[side][st as usize] -= 1;
+        self.left[side][st as usize] = self.left[side][st as usize].saturating_sub(1); // an engine that over-offers is C09's finding, not a harness crash
         self.placed += 1;
         if self.placed == 16 {
             self.gold = false;
@@ -611,7 +611,7 @@ impl SetupModel {
         let side = if gold { 0 } else { 1 };
         let mut v = [0u8; 6];
         for s in 0..6 {
-            v[s] = COMPLEMENT[s] - self.left[side][s];
+            v[s] = COMPLEMENT[s].saturating_sub(self.left[side][s]);
         }
         v
     }
